@@ -359,3 +359,5 @@ func constInt64(c *types.Const) (int64, bool) {
 	}
 	return constant.Int64Val(v)
 }
+
+type pkgT = packages.Package
